@@ -1,5 +1,6 @@
 """C01 - Earley accepts exactly the language of the grammar."""
 import signal
+import sys
 import time
 
 from lib import coq_list
@@ -227,8 +228,10 @@ def patch_lark():
 
     def wrapped(self, i, to_scan, columns, transitives, node_cache):
         r = orig(self, i, to_scan, columns, transitives, node_cache)
+        dm = sys._getframe(1).f_locals.get('delayed_matches')      # xearley._parse's pending matches (None for basic)
         _LOG.append((i, [(it.rule, it.ptr, it.start) for it in columns[i]],
-                     [(it.rule, it.ptr, it.start) for it in to_scan]))
+                     [(it.rule, it.ptr, it.start) for it in to_scan],
+                     sorted(dm.keys()) if dm is not None else None))
         return r
     wrapped._lv_orig = orig
     earley.Parser.predict_and_complete = wrapped
@@ -330,7 +333,7 @@ def run_parse(lark, text, timeout=3.0):
 
 def canon_trace(comp, log):
     cols, scans = [], []
-    for k, (i, col, sc) in enumerate(log):
+    for k, (i, col, sc, _dm) in enumerate(log):
         if i != k:
             return None
         cols.append(sorted({(comp.rule_index(r), p, s) for r, p, s in col}))
@@ -748,6 +751,160 @@ def run_text_streams(ctx, rng, wide):
         check_text_grammar(ctx, rng, tg, 'anon-names', lexers, inputs)
 
 
+# ---------------------------------------------------------------------------------------------
+# dynamic lexers against the model Earley/Dyn.v: the regex engine's answers are recorded from the actual calls of
+# the parser's term_matcher and handed to the model as oracle tables
+DYN_IMPORTS = 'From LV Require Import Cfg.Grammar Cfg.Analysis Earley.Spec Earley.Alg Earley.AlgCheck Earley.Dyn Earley.DynCheck.'
+
+
+class DynCompiled(Compiled):
+    def __init__(self, lark):
+        Compiled.__init__(self, lark)
+        self.ignore_ids = []
+        for name in lark.ignore_tokens:
+            self.ignore_ids.append(self.tid.setdefault(name, len(self.tid)))
+
+
+def run_dyn_parse(comp, text, timeout=3.0):
+    """parse with the dynamic lexer recording every call of term_matcher: -> status, pos, log, rmatch, rtrunc"""
+    p = comp.parser
+    orig = p.term_matcher
+    rmatch, rtrunc, last = {}, {}, [None]
+    bad = []
+
+    def rec(term, txt, index=None):
+        if index is not None:
+            m = orig(term, txt, index)
+            last[0] = (term.name, index)
+            if term.name not in comp.tid:
+                bad.append(term.name)
+            else:
+                rmatch[(comp.tid[term.name], index)] = None if m is None else m.end()
+            return m
+        m = orig(term, txt)
+        name, i = last[0] if last[0] else (None, None)
+        if name != term.name or term.name not in comp.tid:
+            bad.append(term.name)
+        else:
+            rtrunc[(comp.tid[name], i, i + len(txt))] = None if m is None else i + m.end()
+        return m
+    p.term_matcher = rec
+    try:
+        status, pos, log = run_parse(comp.lark, text, timeout)
+    finally:
+        p.term_matcher = orig
+    return status, pos, log, rmatch, rtrunc, bad
+
+
+def check_dyn_grammar(ctx, rng, gtext, inputs, cases, meta, oracle=None):
+    """oracle(text, complete) -> bool | None: optional text-level membership (string-only grammars)"""
+    comps = {}
+    for lexer in ('dynamic', 'dynamic_complete'):
+        st, obj = build(gtext, lexer, 'forest')
+        ctx.count('dyn-model:construct', key=(gtext, lexer), nontrivial=False, construct=st)
+        if st == 'ok':
+            comps[lexer] = DynCompiled(obj)
+        else:
+            ctx.violation('construct', {'grammar': gtext, 'lexer': lexer, 'ambiguity': 'forest', 'mode': 'construct',
+                                        'observed': '%s %s' % (st, obj)}, True,
+                          'constructing the parser %s' % ('did not terminate' if st == 'hang' else 'raised %s %s' % (st, obj)))
+    for lexer, comp in comps.items():
+        runs, rmeta = [], []
+        for text, why in inputs:
+            if len(text) >= 60:
+                continue
+            status, pos, log, rmatch, rtrunc, bad = run_dyn_parse(comp, text)
+            w = {'grammar': gtext, 'lexer': lexer, 'ambiguity': 'forest', 'text': text, 'mode': 'parse-dyn',
+                 'observed': status}
+            tr = canon_trace(comp, log)
+            ctx.count('dyn-model', key=(gtext, lexer, text), nontrivial=len(log) >= 2, lexer=lexer, outcome=status,
+                      input_kind=why)
+            if oracle is not None:
+                want = oracle(text, lexer == 'dynamic_complete')
+                if want is not None:
+                    w['expected_accept'] = want
+                    if status in ('accept', 'UnexpectedEOF', 'UnexpectedCharacters') and (status == 'accept') != want:
+                        ctx.violation('language', w, True, '%s %r although the grammar text %s it'
+                                      % ('accepted' if status == 'accept' else 'rejected', text,
+                                         'derives' if want else 'does not derive'))
+                        continue
+            if status == 'hang':
+                ctx.violation('hang', w, True, 'parse did not terminate within the timeout')
+                ctx.extra['hangs'] = ctx.extra.get('hangs', 0) + 1
+                break
+            if status not in ('accept', 'UnexpectedEOF', 'UnexpectedCharacters'):
+                ctx.violation('exception-class', w, True, 'dynamic lexer raised %s' % status)
+                continue
+            if tr is None or bad:
+                ctx.violation('correspondence:observation-shape', {'no_longer_checks': 'call sequence of xearley', **w},
+                              False, 'unexpected predict_and_complete / term_matcher call sequence (%s)' % bad[:3])
+                continue
+            ncols = len(log)
+            code = 0 if status == 'accept' else 1 if status == 'UnexpectedEOF' else 2 + (ncols - 1)
+            if status == 'UnexpectedCharacters' and pos is not None and pos != ncols - 1:
+                ctx.violation('correspondence:error-position', {'no_longer_checks': 'error position', **w}, False,
+                              'UnexpectedCharacters at %s, scan(%d) raised' % (pos, ncols - 1))
+            keys = [k for (_i, _c, _s, k) in log[1:]]
+            mt = sorted((t * 64 + i) * 64 + e for (t, i), e in rmatch.items() if e is not None)
+            tt = sorted(((t * 64 + i) * 64 + lim) * 64 + e for (t, i, lim), e in rtrunc.items() if e is not None)
+            nl = lambda xs: '(' + L(['%d' % x for x in xs], 'N') + ')%N'
+            term = '(%d, %s, %s, %s, %d, %s, %s, %s)' % (
+                len(text), 'true' if lexer == 'dynamic_complete' else 'false', nl(mt), nl(tt), code,
+                coq_sets(tr[0]), coq_sets(tr[1]), '(' + L([L(['%d' % k for k in ks], 'N') for ks in keys], '(list N)') + ')%N')
+            if term not in runs:
+                runs.append(term)
+                rmeta.append(w)
+        if runs:
+            cases['dyn'].append((comp.coq_rules(), comp.start, L(['%d' % x for x in comp.ignore_ids], 'nat'), runs))
+            meta['dyn'].append(rmeta)
+
+
+def dyn_group_term(g):
+    return '(%s, %d, %s, %s)' % (g[0], g[1], g[2], L(g[3]))
+
+
+def run_dyn_stream(ctx, rng, wide, cases, meta):
+    from props import earley_ignore_gen as eig
+    cases['dyn'], meta['dyn'] = [], []
+    n_str, n_re = ctx.scale(6, 60) * wide, ctx.scale(8, 80) * wide
+    n_in = ctx.scale(18, 40)
+    for k in range(n_str + n_re):
+        tg = eig.gen_ignore_grammar(rng) if k < n_str else eig.gen_regex_grammar(rng)
+        inputs = eig.gen_inputs(rng, tg, exhaustive_len=2, n_sent=8, n_mut=8, max_sent_len=7)
+        if len(inputs) > n_in:
+            inputs = inputs[:5] + rng.sample(inputs[5:], n_in - 5)
+        oracle = (lambda text, complete, tg=tg: eig.member_dynamic(tg, text, complete=True)) if tg.string_only() and not tg.re_ignores else None
+        check_dyn_grammar(ctx, rng, tg.render(), inputs, cases, meta, oracle)
+
+
+def run_dyn_coq(ctx, cases, meta):
+    what = 'Earley/Dyn.dyn_parse vs xearley.Parser (item sets per column, delayed_matches keys, outcome; recorded regex answers)'
+    groups = cases.get('dyn') or []
+    if not groups:
+        return
+    bad, errs = ctx.coq_bad_indices('c01dyn', DYN_IMPORTS, 'dyn_check', [dyn_group_term(g) for g in groups], chunk=3)
+    for e in errs:
+        ctx.violation('correspondence:coq-eval', {'no_longer_checks': what, 'error': e}, False, e[:300])
+    single, smeta = [], []
+    for i in bad[:12]:
+        g = groups[i]
+        for t, w in zip(g[3], meta['dyn'][i]):
+            single.append(dyn_group_term((g[0], g[1], g[2], [t])))
+            smeta.append(w)
+    if single:
+        bad2, errs2 = ctx.coq_bad_indices('c01dyn1', DYN_IMPORTS, 'dyn_check', single, chunk=30)
+        for e in errs2:
+            ctx.violation('correspondence:coq-eval', {'no_longer_checks': what, 'error': e}, False, e[:300])
+        for i in bad2:
+            w = dict(smeta[i])
+            w['no_longer_checks'] = what
+            ctx.violation('correspondence:' + what, w, False,
+                          'dynamic-lexer model and implementation differ on grammar %r input %r lexer %s'
+                          % (w.get('grammar'), w.get('text'), w.get('lexer')))
+    ctx.extra['dyn_runs_checked_in_coq'] = sum(len(g[3]) for g in groups)
+    ctx.coq_cases_checked += sum(len(g[3]) for g in groups) - len(groups)
+
+
 def correspond(ctx):
     patch_lark()
     rng = ctx.rng
@@ -776,10 +933,12 @@ def correspond(ctx):
         check_grammar(ctx, rng, render(rng, names, chars, g), 'ignore', cases, meta, seen, n_exh // 2, n_extra,
                       ignore=True)
     run_text_streams(ctx, rng, wide)
+    run_dyn_stream(ctx, rng, wide, cases, meta)
     ctx.extra['lark_seconds'] = round(time.time() - t0, 1)
     run_exotic(ctx)
     t1 = time.time()
     run_coq(ctx, cases, meta)
+    run_dyn_coq(ctx, cases, meta)
     ctx.extra['coq_seconds'] = round(time.time() - t1, 1)
 
 
